@@ -110,6 +110,13 @@ def run(ctx):
     ok_iter = (isinstance(it, ast.Call) and norm(it.func) == "sorted" and len(it.args) == 1 and
                norm(it.args[0]) == "%s['data'].items()" % tok and
                [k.arg for k in it.keywords] == ["key"] and norm(it.keywords[0].value) == "_attr_key")
+    if not ok_iter and isinstance(it, ast.Name):
+        # `pairs = list(token['data'].items()); pairs.sort(key=_attr_key); for .. in pairs`
+        defs = [a for a in ast.walk(f.node) if isinstance(a, ast.Assign) and len(a.targets) == 1 and norm(a.targets[0]) == it.id]
+        sorts_ = [c for c in ast.walk(f.node) if isinstance(c, ast.Call) and isinstance(c.func, ast.Attribute) and c.func.attr == "sort" and
+                  norm(c.func.value) == it.id and [k.arg for k in c.keywords] == ["key"] and norm(c.keywords[0].value) == "_attr_key" and not c.args]
+        ok_iter = len(defs) == 1 and norm(defs[0].value) in ("list(%s['data'].items())" % tok, "[*%s['data'].items()]" % tok) and len(sorts_) == 1 and \
+            defs[0].lineno < sorts_[0].lineno < lp.lineno
     r.idiom("R18.2", ok_iter, "iterates-sorted-items", "%s:%d" % (REL, lp.lineno),
             "the rebuild loop does not iterate sorted(token['data'].items(), key=_attr_key): %s" % norm(it))
     tgt = lp.target
